@@ -61,7 +61,9 @@ var largeShapes = map[string][]largeShape{
 		{"deep-objects", func(L int) []byte { return cat(rep("{i\x01k", L/5), []byte("Z"), rep("}", L/5)) }},
 		{"typed-int8", func(L int) []byte { return cat([]byte("[$i#l"), be32(L), rep("\x01", L)) }},
 		{"typed-uint8", func(L int) []byte { return cat([]byte("[$U#l"), be32(L), rep("\xfe", L)) }},
-		{"typed-float64", func(L int) []byte { return cat([]byte("[$D#l"), be32(L/8), rep("\x3f\xf0\x00\x00\x00\x00\x00\x00", L/8)) }},
+		{"typed-float64", func(L int) []byte {
+			return cat([]byte("[$D#l"), be32(L/8), rep("\x3f\xf0\x00\x00\x00\x00\x00\x00", L/8))
+		}},
 		{"typed-strings", func(L int) []byte { return cat([]byte("[$S#l"), be32(L/3), rep("i\x01a", L/3)) }},
 		{"typed-arrays", func(L int) []byte { return cat([]byte("[$[#l"), be32(L), rep("]", L)) }},
 		{"counted", func(L int) []byte { return cat([]byte("[#l"), be32(L), rep("Z", L)) }},
